@@ -71,6 +71,21 @@ impl BanTimeline {
     fn seen_banned(&self, host: &str, a: u64, b: u64) -> bool {
         self.banned_at(host, a) || self.pts.iter().any(|(t, _, s)| *t >= a && *t <= b && s.contains(host))
     }
+    /// whatever it is at `a`: once out of the ban list in (a, b] it does not come back before b
+    fn not_banned_again(&self, host: &str, a: u64, b: u64) -> bool {
+        let mut was_out = !self.banned_at(host, a);
+        for (t, _, s) in self.pts.iter().filter(|(t, _, _)| *t > a && *t <= b) {
+            let _ = t;
+            if s.contains(host) {
+                if was_out {
+                    return false;
+                }
+            } else {
+                was_out = true;
+            }
+        }
+        true
+    }
     /// not banned at `a` and in no sample in (a, b]
     fn unbanned_throughout(&self, host: &str, a: u64, b: u64) -> bool {
         if self.banned_at(host, a) {
@@ -212,7 +227,7 @@ pub fn c07_bans(cx: &mut Ctx) {
             }
             let (w0, w1) = (s.start_us, s.done_us);
             let sql = String::from_utf8_lossy(&s.sent).to_string();
-            let self_inflicted = sql.contains("sim_close(") || sql.contains("sim_hang(");
+            let self_inflicted = sql.contains("sim_close(") || sql.contains("sim_hang(") || sql.contains("sim_stall(");
             let perr = pooler_error(&s.msgs);
             let serr = server_error(&s.msgs);
             let failed = !step_ok(s) || perr.is_some() || serr.is_some();
@@ -233,7 +248,7 @@ pub fn c07_bans(cx: &mut Ctx) {
             if w1 - w0 > bound {
                 cx.v("C07", "detection_bound_exceeded", "C07/detection_bound_exceeded", s.done_seq, format!("client {} step {} took {} ms; bound from the configured timeouts is {} ms", c.id, s.idx, (w1 - w0) / 1000, bound / 1000));
             }
-            let usable = |hst: &String| -> bool { t.healthy(hst, w0.saturating_sub(20_000), w1) && (bt.unbanned_throughout(hst, w0.saturating_sub(6_000), w1) || (all_replicas_banned_at(w0.saturating_sub(6_000)) && !t.replicas().iter().any(|r| t.admin_touched(r, w0.saturating_sub(6_000), w1)))) };
+            let usable = |hst: &String| -> bool { t.healthy(hst, w0.saturating_sub(20_000), w1) && (bt.unbanned_throughout(hst, w0.saturating_sub(6_000), w1) || (all_replicas_banned_at(w0.saturating_sub(6_000)) && bt.not_banned_again(hst, w0.saturating_sub(6_000), w1) && !t.replicas().iter().any(|r| t.admin_touched(r, w0.saturating_sub(6_000), w1)))) };
             if failed {
                 if self_inflicted {
                     cx.probe("c07_break_mid_statement");
